@@ -283,9 +283,19 @@ func resolveCatalogRefs(c *catalog.Catalog, rvs []*ast.RangeVar, args []paramRef
 			}
 			key := *n.Name
 
+			if defaultTable == nil && ref.rv == nil {
+				return nil, &sqlerr.Error{
+					Code:     "42P18",
+					Message:  fmt.Sprintf("could not determine data type of parameter $%d", ref.ref.Number),
+					Location: n.Location,
+				}
+			}
 			// TODO: Deprecate defaultTable
-			schema := defaultTable.Schema
-			rel := defaultTable.Name
+			var schema, rel string
+			if defaultTable != nil {
+				schema = defaultTable.Schema
+				rel = defaultTable.Name
+			}
 			if ref.rv != nil {
 				fqn, err := ParseTableName(ref.rv)
 				if err != nil {
